@@ -18,6 +18,7 @@ unsigned long g_nh, g_nb, g_nt, g_bslen;          /* bytes written by header / b
 char *g_hdr_at, *g_body_at, *g_trl_at, *g_begin_at, *g_bodylen_at, *g_chk_at;      /* cursors given to the encoders (0 = not called) */
 long g_seq, g_seq_hdr, g_seq_body, g_seq_trl, g_seq_begin, g_seq_bodylen_enc, g_seq_bodylen_set, g_seq_chk_calc, g_seq_chk_set, g_seq_chk_enc;
 long g_bodylen_value; const char *g_chk_from; unsigned long g_chk_len; unsigned g_chk_value; long g_chk_text, g_msgtype_set;
+_Bool g_via_string; long g_assigned_n; const char *g_assigned_from;
 _Bool g_clr8, g_clr9, g_clr10, g_null_begin, g_null_bodylen, g_null_chk;
 struct field_m g_f_msgtype, g_f_begin, g_f_bodylen, g_f_chk;
 static unsigned long declen(long v) { return v < 10 ? 1 : v < 100 ? 2 : v < 1000 ? 3 : v < 10000 ? 4 : v < 100000 ? 5 : v < 1000000 ? 6 : v < 10000000 ? 7 : 8; }
@@ -58,14 +59,63 @@ unsigned calc_chksum_model(const char *from, unsigned long sz, unsigned offset, 
   g_chk_from = from; g_chk_len = sz; g_seq_chk_calc = ++g_seq; g_chk_value = nondet_uint() % 256;   /* K-chk: byte sum mod 256 of exactly that span */
   return g_chk_value;
 }
+_Bool g_small; _Bool g_assigned_ok; const char *g_contract_start; unsigned long g_contract_len;
+long *str_assign_bytes(long *s, const char *p, unsigned long n)
+{ g_assigned_n = (long)n; g_assigned_ok = p == g_contract_start && n == g_contract_len && __CPROVER_r_ok(p, n); *s = (long)n; return s; }
+/* Message::encode(char **) by the contract K-enc proves of it (h_encode): given room for HEADER_CALC_OFFSET + sections + CheckSum field + terminator from *store,
+   it leaves *store at the first byte of the message and returns its length */
+struct FIX8_Message;
+unsigned long message_encode_contract(const struct FIX8_Message *m, char **store)
+{
+  unsigned long body = g_nh + g_nb + g_nt, need = HCO + body + 7 + 1;
+  if (g_small) __CPROVER_assert(need <= __CPROVER_OBJECT_SIZE(*store) - __CPROVER_POINTER_OFFSET(*store), "C03.encode_to_string.output_buffer_holds_a_message_of_at_most_the_maximum_length");
+  else __CPROVER_assert(need <= __CPROVER_OBJECT_SIZE(*store) - __CPROVER_POINTER_OFFSET(*store), "C03.encode_to_string.output_buffer_holds_the_encoded_message");
+  __CPROVER_assume(need <= __CPROVER_OBJECT_SIZE(*store) - __CPROVER_POINTER_OFFSET(*store));       /* what follows is checked for the runs in which it fits */
+  unsigned long hlen = 2 + g_bslen + 1 + 3 + declen((long)body);
+  *store = *store + HCO - hlen; g_contract_start = *store; g_contract_len = hlen + body + 7;
+  return g_contract_len;
+}
+unsigned long str_size_id(const long *s) { return (unsigned long)*s; }
 long fmt_chksum_model(unsigned v) { return 1000 + (long)v; }      /* the 3-digit text of v, as an id (K-fmt) */
 '''
 
 POST = r'''
+/* Message::encode(f8String&): the same assembly into a FIX8_MAX_MSG_LENGTH + HEADER_CALC_OFFSET stack buffer, whatever the fields need */
+void h_encode_to_string(void)
+{
+  struct FIX8_Message m; struct FIX8_MessageBase hdr, trl;
+  g_msg = &m; g_hdr = &hdr; g_trl = &trl; m._header = &hdr; m._trailer = &trl; g_via_string = 1; g_small = 0;
+  g_nh = nondet_ulong(); g_nb = nondet_ulong(); g_nt = nondet_ulong(); g_bslen = nondet_ulong();
+  __CPROVER_assume(g_nh <= 4096 && g_nt <= 4096 && g_nb < 9990000 && g_bslen >= 1 && g_bslen <= 19);    /* the field values are as long as the application made them */
+  m.__base._ctx._preamble_sz = 2 + g_bslen + 1 + 3;
+  g_null_begin = g_null_bodylen = g_null_chk = 0;
+  g_seq = 0; g_hdr_at = g_body_at = g_trl_at = g_begin_at = g_bodylen_at = g_chk_at = 0; g_clr8 = g_clr9 = g_clr10 = 0; g_chk_from = 0; __exc = 0;
+  long to = 0;
+  unsigned long r = message_encode_to_string(&m, &to);
+  __CPROVER_assert(__exc || (g_assigned_ok && r == (unsigned long)g_assigned_n), "C03.encode_to_string.result_is_the_whole_encoded_message_read_inside_the_buffer");
+  VACUITY_PROBE();
+}
+/* the same for messages whose sections render to at most FIX8_MAX_MSG_LENGTH - 8 bytes: the buffer (with its HEADER_CALC_OFFSET reserve) holds them */
+void h_encode_to_string_small(void)
+{
+  struct FIX8_Message m; struct FIX8_MessageBase hdr, trl;
+  g_msg = &m; g_hdr = &hdr; g_trl = &trl; m._header = &hdr; m._trailer = &trl; g_via_string = 1;
+  g_nh = nondet_ulong(); g_nb = nondet_ulong(); g_nt = nondet_ulong(); g_bslen = nondet_ulong();
+  __CPROVER_assume(g_nh <= 4096 && g_nt <= 4096 && g_nb < 9990000 && g_bslen >= 1 && g_bslen <= 19);    /* the field values are as long as the application made them */
+  m.__base._ctx._preamble_sz = 2 + g_bslen + 1 + 3;
+  __CPROVER_assume(g_nh + g_nb + g_nt <= 8192ul - 8ul);
+  g_small = 1;
+  g_null_begin = g_null_bodylen = g_null_chk = 0;
+  g_seq = 0; g_hdr_at = g_body_at = g_trl_at = g_begin_at = g_bodylen_at = g_chk_at = 0; g_clr8 = g_clr9 = g_clr10 = 0; g_chk_from = 0; __exc = 0;
+  long to = 0;
+  unsigned long r = message_encode_to_string(&m, &to);
+  __CPROVER_assert(__exc || (g_assigned_ok && r == (unsigned long)g_assigned_n), "C03.encode_to_string.result_is_the_whole_encoded_message_read_inside_the_buffer");
+  VACUITY_PROBE();
+}
 void h_encode(void)
 {
   struct FIX8_Message m; struct FIX8_MessageBase hdr, trl;
-  g_msg = &m; g_hdr = &hdr; g_trl = &trl; m._header = &hdr; m._trailer = &trl;
+  g_msg = &m; g_hdr = &hdr; g_trl = &trl; m._header = &hdr; m._trailer = &trl; g_via_string = 0;
   g_nh = nondet_ulong(); g_nb = nondet_ulong(); g_nt = nondet_ulong(); g_bslen = nondet_ulong();
   __CPROVER_assume(g_nh <= 4096 && g_nt <= 4096 && g_nb < 9990000 && g_bslen >= 1 && g_bslen <= 19);    /* message below 10^7 bytes; BeginString at most 19 characters */
   m.__base._ctx._preamble_sz = 2 + g_bslen + 1 + 3;                                             /* as F8MetaCntx's constructor computes it */
@@ -109,7 +159,7 @@ UNIT = dict(
         default_args={'calc_chksum_model': {2: '0u', 3: '-1'}},
         pod=[r'std::basic_string<char>'],
         bases={'FIX8::Message': 'FIX8::MessageBase'},
-        constants={'HEADER_CALC_OFFSET': '32ul', 'Common_BeginString': '((unsigned short)8)', 'Common_BodyLength': '((unsigned short)9)', 'Common_CheckSum': '((unsigned short)10)'},
+        constants={'HEADER_CALC_OFFSET': '32ul', 'FIX8_MAX_MSG_LENGTH': '8192', 'Common_BeginString': '((unsigned short)8)', 'Common_BodyLength': '((unsigned short)9)', 'Common_CheckSum': '((unsigned short)10)'},
         type_map=[(r'(std::basic_string<char>|std::string|FIX8::f8String)', 'long'), (FLD, 'struct field_m'),
                   (r'FIX8::(msg_type|begin_string|body_length|check_sum)', 'struct field_m'), (r'FIX8::FieldTraits', 'struct ft_m'), (r'FIX8::BaseField', 'struct field_m'),
                   (r'FIX8::FieldTrait::TraitTypes', 'unsigned int')],
@@ -122,14 +172,18 @@ UNIT = dict(
                'FIX8::Field<std::basic_string<char>, 35>::set': dict(c='fld_set_str', sig='void (const std::string &)'), 'FIX8::Field<std::basic_string<char>, 10>::set': dict(c='fld_set_str', sig='void (const std::string &)'),
                'FIX8::BaseField::encode': 'fld_encode', 'FIX8::begin_string::encode': 'fld_encode', 'FIX8::body_length::encode': 'fld_encode', 'FIX8::check_sum::encode': 'fld_encode',
                'FIX8::FieldTraits::clear': 'ft_clear', 'struct ft_m::clear': 'ft_clear',
+               'FIX8::Message::encode': 'message_encode_contract', 'std::basic_string<char>::assign': 'str_assign_bytes', 'std::basic_string<char>::size': 'str_size_id',
                'calc_chksum': 'calc_chksum_model', 'fmt_chksum': 'fmt_chksum_model'}),
     prelude=PRELUDE,
     force_fields={'FIX8::Message': [('_header', 'FIX8::MessageBase *'), ('_trailer', 'FIX8::MessageBase *')],
                   'FIX8::MessageBase': [('_fp', 'FIX8::FieldTraits')],
                   'FIX8::F8MetaCntx': [('_preamble_sz', 'unsigned long')]},
-    functions=[dict(q='FIX8::Message::encode', sig='size_t (char **) const', cname='message_encode')],
+    functions=[dict(q='FIX8::Message::encode', sig='size_t (char **) const', cname='message_encode'),
+               dict(q='FIX8::Message::encode', sig='size_t (FIX8::f8String &) const', cname='message_encode_to_string')],
     postlude=POST,
-    proofs=[dict(name='encode', harness='h_encode', properties=['C02'], solvers=['cadical', 'z3'], timeout=dict(quick=600, thorough=1800), floor=10, level='proved-modular', object_bits=10)],
+    proofs=[dict(name='encode_to_string_small', harness='h_encode_to_string_small', properties=['C03'], solvers=['cadical', 'z3'], timeout=dict(quick=600, thorough=1800), floor=2, level='proved-modular', object_bits=10),
+            dict(name='encode_to_string', harness='h_encode_to_string', properties=['C03'], solvers=['cadical', 'z3'], timeout=dict(quick=600, thorough=1800), floor=2, level='proved-modular', object_bits=10),
+            dict(name='encode', harness='h_encode', properties=['C02'], solvers=['cadical', 'z3'], timeout=dict(quick=600, thorough=1800), floor=10, level='proved-modular', object_bits=10)],
     trusted_base=['ASSUMED: MessageBase::encode(char*) and BaseField::encode(char*) write exactly the number of bytes they return at the cursor they are given; BeginString renders as 2+|text|+1 '
                   'bytes, BodyLength as 3 + decimal digits of its value (K-int), CheckSum as 7 bytes; calc_chksum is the byte sum mod 256 of the span it is given (K-chk, proved under C07); '
                   'fmt_chksum renders 3 digits (model bodies in specs/k_enc.py)'],
